@@ -306,6 +306,8 @@ def summarise(ev, st0, fr, H, stops):
             trip = trip_bound(ev, hvf, conts, st0)
         new = dict(ranges)
         for n, wh, init, t in hvf.vars:
+            if not ev.loop_intervals:
+                break  # the caller wants the loop's effect only (differential comparison): no interval invariants
             if not (isinstance(t, T.T) and t.op in ("sym", "rng", "const") and t.w > 1) or n in accel:
                 continue
             if n not in ranges:
